@@ -84,6 +84,7 @@ Crc32Placement(pl) ==
        /\ Len(tl) = 1 + ((L + 8 + 3) \div 4)
 ASSUME \A n \in 0..MaxLen : Crc32Placement(Payload(n))
 ASSUME Crc5TableOk
+ASSUME Crc32StreamOk
 
 \* tables for the cfg overrides HdrCrc16 <- McCrc16, Crc32Of <- McCrc32 (built from the bit-serial definitions)
 Crc16Tab == [d \in {h.dw : h \in Headers} |-> Usb3Crc16(d)]
